@@ -48,6 +48,9 @@ structure Ghost where
   closed : Bool := false
   reset : Bool := false
   dead : Bool := false
+  /-- the peer's (bidi, uni) stream counts at the moment of the last ResetFor0RTT: what a resumed client
+      remembered; only used for coverage tags and diagnostics, the limits in force start over -/
+  prevPeer : Option (Int × Int) := none
 deriving Repr
 
 def Ghost.fresh (pers : Persp) (lb lu : Int) : Ghost :=
